@@ -46,7 +46,10 @@ def main():
         assert rc == 0, 'patch does not apply: ' + out
         rc1, o1 = sh(f'/venv/bin/python {dst}/demo.py', cwd=wt, env=env)
         ran.append(f'demo with patch: exit {rc1}')
-        tests_ok = None
+        prev = meta.get('confirmed', {})
+        tests_ok = prev.get('baseline_tests_pass_with_patch') if not do_tests else None
+        if meta.get('checks'):
+            meta.setdefault('checks_before_strengthening', []).append(meta['checks'])
         tp = None
         if do_tests:
             tp = subprocess.Popen(f'/venv/bin/python -m pytest pyins/tests -q -p no:cacheprovider --timeout=900 --junitxml={wt}/junit.xml > {wt}/pytest.log 2>&1',
